@@ -141,7 +141,12 @@ func svWalk(rnd *rand.Rand, n int, faults bool) func(r *svRig, step int) *SAct {
 				if len(live) > 0 && rnd.Intn(8) != 0 {
 					h = live[rnd.Intn(len(live))]
 				}
-				return &SAct{Op: "hstep", H: h, Hop: svRandHop(rnd, r.hs[h].unary)}
+				hop := svRandHop(rnd, r.hs[h].unary)
+				if !faults && hop.Op == "await" && r.hs[h].ctx.Err() == nil {
+					// without faults nothing but the end of the connection would wake it
+					hop = &HopSpec{Op: "settrl", T: 8}
+				}
+				return &SAct{Op: "hstep", H: h, Hop: hop}
 			case x < 92 && faults:
 				wblocked = !wblocked
 				return &SAct{Op: "wblock", On: wblocked}
